@@ -19,7 +19,7 @@ from ..core.runner import Acc, guard, CaseTimeout, robust
 ID = 'C04'
 LEVEL = 'exploration'
 TECHNIQUE = 'bounded exhaustive enumeration of programs x span lengths x every period position x options on recording arrays (raw read/write index log) with before/after snapshots'
-RULE = ('programs: S1 index forms (variables/parameters/errors, RHS and LHS offsets) + all S4 systems over 6 (quick) / 12 (thorough) right-hand sides; span lengths '
+RULE = ('programs: S1 index forms (variables/parameters/errors, RHS and LHS offsets) + all S4 systems over 6 (quick) / 12 (thorough) right-hand sides + 8 programs mixing a named period with lags/leads; span lengths '
         'LAGS+LEADS+1..+3; every t in [-len, len); options {plain, errors=ignore, offset -1/+1, min_iter>max_iter, pre-existing NaN}; solve() over every (start, end) pair. '
         'non-trivial = solve that performs at least one evaluation pass or is rejected')
 ASSUMPTIONS = [
